@@ -19,7 +19,10 @@ SWEEPS = {
     'C05': [['words']],
     'C06': [['bits'], ['longrun', 'bits', '@SEED', '5000000']],
     'C07': [['resync', '2'], ['resync', '1']],
-    'C08': [['words'], ['bits'], ['events', '3'], ['events', '7'], ['total'], ['soak'], ['longrun', 'bits', '@SEED', '5000000'], ['longrun', '3', '@SEED', '3000000'], ['keyboard', '2'], ['keyboard', '1'], ['stream', '2'], ['stream', '1']],
+    'C08': [['words'], ['bits'], ['events', '3'], ['events', '7'], ['total'], ['soak'], ['longrun', 'bits', '@SEED', '5000000'], ['longrun', '3', '@SEED', '3000000'], ['keyboard', '2'], ['keyboard', '1'], ['stream', '2'], ['stream', '1'],
+            # Kani/CBMC, bounded: every history of <= 8 key events on a fresh event decoder, panic checks only (a trap behind a
+            # particular sequence of presses, which no random or pairwise native sweep reaches)
+            ['kani-deep', 'events_deep']],
     'C14': [['events', '2'], ['events', '6'], ['events-real', '2'], ['longrun', '2', '@SEED', '3000000']],
     # C18 compares Keyboard with the real stages (not the stages with their specifications: that is C05/C06/C01/C02/C04/C14)
     'C18': [['keyboard', '2'], ['keyboard', '1'], ['fuzz', '2', '@SEED', '5000000'], ['fuzz', '1', '@SEED', '5000000']],
@@ -42,6 +45,32 @@ def sweep(binpath, args, timeout=900):
         why = [l for l in err.split('\n') if l and not l.startswith('AT ')]
         return 'FAILS crash %s rc=%d at=%s :: %s' % ('-'.join(args), rc, (at[-1][3:].replace(' ', ',') if at else '?'), ' '.join(why)[-300:])
     return out.strip().split('\n')[-1] if out.strip() else ('ERROR ' + err[-300:])
+
+
+def kani_deep(info, binpath, harness):
+    """bounded panic search with Kani's symbolic execution; the values of a failing trace are replayed natively"""
+    from . import kani, kanicex
+    try:
+        d, text, npred = kani.prepare(info, subdir='cex')
+        r, out = kani.run_harness(d, 'cex::' + harness, extra_args=['-Z', 'concrete-playback', '--concrete-playback=print'], timeout=900, mem_gb=16)
+    except Exception as e:
+        return 'ERROR kani-deep %s: %r' % (harness, e)
+    if r['ok']:
+        return 'HOLDS bound: every history of <= 8 key events on a fresh EventDecoder (both modes, recording layout): no panic, overflow or failed unwrap (Kani/CBMC %.0f s; bounded, not a proof)' % r['wall_s']
+    if not r['failed']:
+        return 'ERROR kani-deep %s did not complete (rc=%s)' % (harness, r['rc'])
+    vals = kanicex.parse_playback(out)
+    if not vals or len(vals) < 3:
+        return 'ERROR kani-deep %s: Kani reports a failing check but no concrete values could be parsed' % harness
+    if len(vals) >= 17:
+        # one value per array element: pack the two eight-byte arrays the way the native scenario unpacks them
+        pack = lambda xs: sum((x & 0xFF) << (8 * i) for i, x in enumerate(xs))
+        vals = [vals[0], pack(vals[1:9]), pack(vals[9:17])]
+    cmd = ['kanicex', harness] + [str(v) for v in vals[:3]]
+    rc, nout, nerr = native.run(binpath, cmd)
+    if rc != 0 or 'RESULT PANIC' in nout:
+        return 'FAILS ' + ' '.join(cmd)
+    return 'ERROR kani-deep %s: Kani produced values %s but the native run of the real code does not panic' % (harness, vals[:3])
 
 
 def hit_from_sweep(prop, binpath, args, line):
@@ -145,7 +174,7 @@ def run(prop, tier, known=()):
     if tier == 'thorough':
         sweeps += [[a.replace('@SEED', seed) for a in x] for x in THOROUGH_EXTRA.get(prop, [])]
     for args in sweeps:
-        line = sweep(binpath, args)
+        line = kani_deep(info, binpath, args[1]) if args[0] == 'kani-deep' else sweep(binpath, args)
         ran.append({'sweep': ' '.join(args), 'result': line[:200]})
         if line.startswith('FAILS'):
             hits.append(hit_from_sweep(prop, binpath, args, line))
